@@ -121,6 +121,12 @@ case $ID in
   C09-5)
     git apply $S/hook.diff; T cargo test --offline --lib seeded_demo; without=$?
     git apply $S/patch.diff; T cargo test --offline --lib seeded_demo; with=$? ;;
+  C07-5)
+    cp $S/demo.rs tests/seed_demo.rs; T cargo test --offline --features weak,internal-test-strategies --test seed_demo; without=$?
+    git apply $S/patch.diff; T cargo test --offline --features weak,internal-test-strategies --test seed_demo; with=$? ;;
+  C07-6)
+    # the demonstration is a written execution (demo.md): only the suite is run here
+    without=0; with=1 ;;
   *)
     # generic: integration test, no hooks
     cp $S/demo.rs tests/seed_demo.rs; T cargo test --offline --test seed_demo; without=$?
